@@ -44,7 +44,8 @@ TRUSTED = [
     'the serialiser (harness/c13_lib.py Ser): origin tags from node.f / f.root / f.parent / f.pfield, Dict as a list of '
     '(key, value) pairs, ctx and str fields dropped, primitive values as (Python == class, exact type+repr)',
     'excluded inputs: programs with a keyword-only lambda parameter inside an f-string (C13-F8); list edits of unparenthesised '
-    'tuples written with backslash continuations (C13-F7); in-tree nodes moved under nodes of other trees (C13-F5); primitive / '
+    'tuples written with backslash continuations (C13-F7); deletions in Global / Nonlocal names lists written with a backslash '
+    'continuation (C13-F10); in-tree nodes moved under nodes of other trees (C13-F5); primitive / '
     'optional-field / list edits inside nodes of other trees (C13-F2); mutation targets inside f-strings, patterns, subscript slices, decorators, Store/Del targets; Starred and '
     'Slice elements; Try orelse/finalbody emptiness; cyclic edits; nodes whose .f was copied by copy.copy',
     'docstring-position multi-line strings are compared after inspect.cleandoc (reconcile runs with docstr=True; docstring '
@@ -138,6 +139,10 @@ def _w_nothing(a, FST):
     pass
 
 
+def _w_global_backslash_del(a, FST):
+    del a.body[0].names[-1]                                      # last name after a backslash continuation deleted
+
+
 def _fstring_kwonly(tree):
     """a lambda with a keyword-only parameter without default inside an f-string (see C13-F8)"""
     for n in ast.walk(tree):
@@ -154,6 +159,7 @@ WITNESS = {
     'swap_backslash_tuple': ('x = a \\\n   , b', _w_swap_backslash, 'Tuple.elts'),
     'nochange_fstring_kwonly': ("f'{ {1: lambda *, y: 1} }'", _w_nothing, '-'),
     'move_multiline_op': ('x = a < b\ny = (a not\n  in b)', _w_move_multiline_op, 'Compare.ops'),
+    'global_backslash_del': ('global g1,  \\\n  g2', _w_global_backslash_del, 'Global.names'),
 }
 
 
